@@ -222,6 +222,16 @@ func (x *Exec) frameAllow(c *SpecCtx, m *Expr, emit func(key string, whole bool,
 		}
 		return nil
 	case "call":
+		if m.Name == "maps" && len(m.Args) == 1 {
+			mt, err := x.mapTypeOf(c, m.Args[0])
+			if err != nil {
+				return err
+			}
+			for _, key := range mapKeys(mt) {
+				emit(key, true, nil)
+			}
+			return nil
+		}
 		if m.Name == "field" && len(m.Args) == 1 && m.Args[0].Kind == "field" {
 			b, err := x.specEval(c, m.Args[0].Args[0])
 			if err != nil {
